@@ -216,6 +216,54 @@ def c09(tier, seed):
     return res.finish()
 
 
+def crash_check(pid, tier, seed, fams, what, desc, during=None):
+    res = Result(pid, tier, seed)
+    core.build()
+    q = tier == "quick"
+    extra = [] if q else ["-alltorn"]
+    shards = fam_shards([(f, a + extra) for f, a in fams], seed, 1 if q else 10, 2 if q else 3, 12 if q else 25)
+    rs = core.drive_and_validate(res, shards, core.dev_set(), what, desc)
+    res.cov["samples"] = [dict(e, o="...") for e in core.sample_events(rs[0]["trace"], 5, ops={"crash"})]
+    res.cov["distinct_nontrivial"] = res.extra.get("nontrivial", {}).get("crash_images", 0)
+    res.cov["exhaustive"] = False
+    res.cov["rule"] = ("non-trivial = crash images: for every file mutation recorded by the verifFS hook during the workload the directory is rebuilt "
+                       "as it was after that mutation (and with the next write torn at record-field boundaries" +
+                       ("; power loss: reverted to the last sync with the unsynced tail dropped or torn" if pid == "C11" else "") +
+                       "), the real Open runs on it in a child process and TLC compares what it serves with Replay(log) of the transactions that had "
+                       "returned, plus possibly the in-flight one in full")
+    return res
+
+
+def c10(tier, seed):
+    res = crash_check("C10", tier, seed,
+                      [("crashkv", ["-mode", "keyval", "-rw", "fileio"]), ("crashkv", ["-mode", "keyonly", "-rw", "mmap"]),
+                       ("crashkv", ["-mode", "keyval", "-rw", "mmap"]), ("crashkv", ["-mode", "keyonly", "-rw", "fileio"]),
+                       ("crash", ["-rw", "fileio"]), ("crash", ["-rw", "mmap"])],
+                      "after a process crash Open failed, lost a returned transaction or showed part of an unfinished one",
+                      "workloads (multi-record transactions across rotations, rollbacks, oversized entries followed in the same millisecond by a committing transaction, reopen) with a crash at every file-mutation point")
+    return res.finish()
+
+
+def c11(tier, seed):
+    res = crash_check("C11", tier, seed,
+                      [("powerkv", ["-mode", "keyval", "-rw", "fileio"]), ("powerkv", ["-mode", "keyonly", "-rw", "mmap"]),
+                       ("powerkv", ["-mode", "keyonly", "-rw", "fileio"]), ("power", ["-rw", "fileio"]), ("power", ["-rw", "mmap"])],
+                      "after a power loss with SyncEnable Open failed, lost a returned transaction or showed part of an unfinished one",
+                      "SyncEnable workloads with power lost at every file-mutation point: files revert to their last sync, the unsynced tail dropped or torn, unsynced creations and removals kept or undone")
+    res.assumptions += ["a sync of a file also makes its directory entry durable (the property's stated assumption)",
+                        "power-loss images: unsynced writes are dropped, or the first of them kept torn at a record-field boundary; out-of-order persistence of several unsynced writes is not generated"]
+    return res.finish()
+
+
+def c16(tier, seed):
+    res = crash_check("C16", tier, seed,
+                      [("crashmergekv", ["-mode", "keyval", "-rw", "fileio"]), ("crashmergekv", ["-mode", "keyonly", "-rw", "mmap"]),
+                       ("crashmergekv", ["-mode", "keyonly", "-rw", "fileio"]), ("crashmergeds", []), ("crashmerge", [])],
+                      "after a crash inside Merge the reopened database differs from the contents before Merge (or Open failed)",
+                      "workloads with Merge calls; a crash at every file mutation inside Merge (rewrites, creations, removals; torn writes)")
+    return res.finish()
+
+
 def c15(tier, seed):
     res = Result("C15", tier, seed)
     core.build()
@@ -234,7 +282,7 @@ def c15(tier, seed):
     return res.finish()
 
 
-CHECKS = {"C09": c09, "C15": c15, "C01": c01, "C05": c05, "C06": c06, "C07": c07, "C08": c08, "C12": c12, "C13": c13}
+CHECKS = {"C10": c10, "C11": c11, "C16": c16, "C09": c09, "C15": c15, "C01": c01, "C05": c05, "C06": c06, "C07": c07, "C08": c08, "C12": c12, "C13": c13}
 
 
 def main(argv):
